@@ -74,8 +74,8 @@ func encodeBatch(pid int64, epoch int16, seq int32, txnl bool, ts int64, vals []
 	var recs []byte
 	for i, v := range vals {
 		var body []byte
-		body = append(body, 0)               // attributes
-		body = kbin.AppendVarlong(body, 0)   // timestamp delta
+		body = append(body, 0)                   // attributes
+		body = kbin.AppendVarlong(body, 0)       // timestamp delta
 		body = kbin.AppendVarint(body, int32(i)) // offset delta
 		body = kbin.AppendVarintBytes(body, nil)
 		body = kbin.AppendVarintBytes(body, binary.BigEndian.AppendUint32(nil, v))
